@@ -315,7 +315,10 @@ pub fn replay_file<P: Property>(p: &P, path: &Path, strict: bool) -> i32 {
     let case: P::Case = serde_json::from_value(v["case"].clone()).expect("replay case does not deserialise");
     let open: BTreeSet<String> = load_known(&root, p.id()).into_iter().map(|k| k.signature).collect();
     match run_one(p, &case, &open, strict) {
-        Outcome::Pass(_) => {
+        Outcome::Pass(ctx) => {
+            if std::env::var("VERIF_VERBOSE").is_ok() {
+                println!("classes: {:?}; LPs: {}", ctx.classes, crate::lp::LP_CALLS.with(|c| c.get()));
+            }
             println!("replay {}: property {} holds on this case", path.display(), p.id());
             0
         }
@@ -355,6 +358,7 @@ pub fn run_property<P: Property>(p: &P, opts: &RunOpts) -> i32 {
     let open: BTreeSet<String> = known.iter().map(|k| k.signature.clone()).collect();
 
     // 1. known findings: replay their stored reproduction in strict mode
+    let mut announced: BTreeSet<String> = BTreeSet::new();
     for k in &known {
         if let Some(rp) = &k.replay {
             let path = root.join(rp);
@@ -363,7 +367,10 @@ pub fn run_property<P: Property>(p: &P, opts: &RunOpts) -> i32 {
                     let v: Value = serde_json::from_str(&txt).expect("known replay json");
                     let case: P::Case = serde_json::from_value(v["case"].clone()).expect("known replay case");
                     match run_one(p, &case, &open, true) {
-                        Outcome::Fail(_) => println!("KNOWN-FINDING: property={} {} [{}]", id, k.what, k.signature),
+                        Outcome::Fail(_) => {
+                            announced.insert(k.signature.clone());
+                            println!("KNOWN-FINDING: property={} {} [{}]", id, k.what, k.signature)
+                        }
                         Outcome::Pass(_) => println!(
                             "note: listed finding {} no longer reproduces from {}",
                             k.signature, rp
@@ -509,6 +516,13 @@ pub fn run_property<P: Property>(p: &P, opts: &RunOpts) -> i32 {
                         let t_case = Instant::now();
                         let outcome = run_one(p, &case, open, false);
                         let dt = t_case.elapsed().as_secs_f64();
+                        if let Ok(th) = std::env::var("VERIF_SLOW_DUMP") {
+                            // diagnostic only: keep every case slower than the threshold under work/slow/
+                            if dt > th.parse::<f64>().unwrap_or(10.0) {
+                                let f = Failure { msg: format!("slow case {dt:.1}s"), detail: Value::Null };
+                                write_replay(&verif_root().join("work"), p.id(), &case, &f, "slow");
+                            }
+                        }
                         if dt > out.slowest_s {
                             out.slowest_s = dt;
                             if let Outcome::Pass(ctx) = &outcome {
@@ -528,6 +542,11 @@ pub fn run_property<P: Property>(p: &P, opts: &RunOpts) -> i32 {
                                 }
                                 for (k, v) in ctx.counters {
                                     *out.counters.entry(k).or_insert(0) += v;
+                                }
+                                if !ctx.known_hit.is_empty() && std::env::var("VERIF_DUMP_KNOWN").is_ok() {
+                                    // diagnostic only: keep occurrences of listed findings under work/replays/knownhit/
+                                    let f = Failure { msg: format!("known finding hit: {:?}", ctx.known_hit.keys().collect::<Vec<_>>()), detail: Value::Null };
+                                    write_replay(&verif_root().join("work"), p.id(), &case, &f, "knownhit");
                                 }
                                 for (k, v) in ctx.known_hit {
                                     *out.known_hit.entry(k).or_insert(0) += v;
@@ -646,6 +665,12 @@ pub fn run_property<P: Property>(p: &P, opts: &RunOpts) -> i32 {
         start.elapsed().as_secs_f64()
     );
     for (k, v) in &known_hit {
+        if !announced.contains(k) {
+            // the stored reproduction did not fail, but the generated search met the listed finding
+            if let Some(kf) = known.iter().find(|kf| &kf.signature == k) {
+                println!("KNOWN-FINDING: property={} {} [{}]", id, kf.what, kf.signature);
+            }
+        }
         println!("known finding {k}: excluded {v} occurrence(s) from this run");
     }
     if std::env::var("VERIF_VERBOSE").is_ok() {
